@@ -19,7 +19,7 @@ sys.path.insert(0, HERE)
 import run_scenario
 VERIF = os.path.dirname(HERE)
 GRID = os.path.join(VERIF, "scenarios", "grid")
-FOCI = ["C01", "C02", "C03", "C04", "C05", "C06", "C07", "C08", "C13", "C14", "C15", "C18", "C19", "C10", "C11", "C12"]
+FOCI = ["C01", "C02", "C03", "C04", "C05", "C06", "C07", "C08", "C13", "C14", "C15", "C18", "C19", "C10", "C11", "C12", "C17"]
 # C10: programs with unguarded arithmetic; oracle from the statement alone (no panic, no hang), nothing recorded is compared.
 # C11: a valid scenario whose SIGNAL LIST is then damaged (signal dropped, renamed, duplicated, direction changed): bind verdict.
 # C12: a valid scenario whose PROGRAM TEXT is then damaged by one token-level edit: parse verdict and error location validity.
@@ -30,7 +30,7 @@ TOKEN_POOL = ["loop", "end", "while", "repeat", "let", "declare", "bits", "reset
               "X", "C", "Z", "0x10000000000000000", "18446744073709551616", "0b2", "09", "0x", "q", "ite", "random", "signExt", "foo(1)",
               "ite(1,2)", "ite(1,2,3,4)", "bits(65,1)", "bits(0,1)", "1 2", "\n", "#"]
 PER_FOCUS = 250
-SIZE = {"C12": 2000, "C11": 1000, "C10": 750}
+SIZE = {"C12": 2000, "C11": 1000, "C10": 750, "C17": 400}
 
 BINOPS = ["+", "-", "*", "/", "%", "&", "|", "^", "<<", ">>", "=", "!=", "<", ">", "<=", ">="]
 VARS = ["a", "b", "c", "i", "j", "k", "n", "x", "y"]
@@ -344,12 +344,106 @@ def damage_signals(rnd, scen):
     return "\n".join(lines)
 
 
+class Draws:
+    """C17, oracle from the statement: `random` is drawn exactly once per evaluation of the expression it stands in, and
+    `resetRandom` replays the sequence. A block with a control flow that does not depend on the drawn values is generated together
+    with the number m of draws the statement prescribes for it; the program draws d1..d(m+1) first, resets, runs the block, draws z
+    and yields the row `(z = d(m+1))`, which must be 1; every row inside the block is written to yield 1 as well."""
+    K = "1000000"
+
+    def __init__(self, rnd):
+        self.r = rnd
+        self.lines = []
+        self.nrows = 0
+        self.tmp = 0
+
+    def rx(self):
+        return f"random({self.K})"
+
+    def expr(self, depth=2):
+        """returns (text, draws)"""
+        r = self.r
+        c = r.random()
+        if depth <= 0 or c < 0.25:
+            return (self.rx(), 1) if r.random() < 0.7 else (str(r.randrange(0, 9)), 0)
+        a, na = self.expr(depth - 1)
+        b, nb = self.expr(depth - 1)
+        if c < 0.45:
+            return f"({a} {r.choice(['+', '-', '*', '^', '<', '='])} {b})", na + nb
+        if c < 0.6:
+            # both operands of & and | are evaluated, whatever the left one is
+            return (f"(0 & {b})", nb) if r.random() < 0.5 else (f"(1 | {b})", nb) if r.random() < 0.5 else (f"({a} & {b})", na + nb)
+        if c < 0.8:
+            sel = r.choice([0, 1, 5])
+            cnd, nc = (str(sel), 0) if r.random() < 0.6 else (f"({self.rx()} >= 0)", 1)
+            if nc:
+                sel = 1
+            # only the selected branch is evaluated
+            return f"ite({cnd}, {a}, {b})", nc + (na if sel else nb)
+        if c < 0.9:
+            return f"{r.choice(['-', '~', '!', '!!', '-~'])}{a if a.startswith('(') or a.isdigit() else '(' + a + ')'}", na
+        return f"(({a}) >> 64)", na
+
+    def block(self, depth, mult):
+        """emits statements; returns draws per execution of the block"""
+        r = self.r
+        total = 0
+        for _ in range(r.randrange(1, 4)):
+            c = r.random()
+            self.tmp += 1
+            t = f"t{self.tmp}"
+            if c < 0.4 or depth >= 2:
+                e, n = self.expr()
+                self.lines.append(f"let {t} = {e};")
+                total += n
+            elif c < 0.55:
+                e, n = self.expr(1)
+                self.lines.append(f"((({e}) & 0) + 1)")
+                self.nrows += mult
+                total += n
+            elif c < 0.75:
+                m = r.randrange(0, 4)
+                be, bn = (str(m), 0) if r.random() < 0.6 else (f"(({self.rx()} & 0) + {m})", 1)
+                self.lines.append(f"loop(i{self.tmp},{be})")
+                inner = self.block(depth + 1, mult * m)
+                self.lines.append("end loop")
+                total += bn + m * inner   # the bound is evaluated once
+            elif c < 0.85:
+                m = r.randrange(0, 4)
+                e, n = self.expr(1)
+                self.lines.append(f"repeat({m}) ((({e}) & 0) + 1)")
+                self.nrows += mult * m
+                total += m * n
+            else:
+                m = r.randrange(0, 3)
+                w = f"w{self.tmp}"
+                self.lines.append(f"let {w} = {m};")
+                rc = r.random() < 0.6
+                self.lines.append(f"while(({self.rx()} >= 0) & ({w} > 0))" if rc else f"while({w} > 0)")
+                inner = self.block(depth + 1, mult * m)
+                self.lines.append(f"let {w} = {w} - 1;")
+                self.lines.append("end while")
+                total += (m + 1 if rc else 0) + m * inner   # the condition is evaluated once per test: m times true, once false
+        return total
+
+    def scenario(self):
+        m = self.block(0, 1)
+        pre = [f"let d{k} = {self.rx()};" for k in range(1, m + 2)]
+        prog = ["A"] + pre + ["resetRandom;"] + self.lines + [f"let z = {self.rx()};", f"(z = d{m + 1})"]
+        # a second reset replays from the start again
+        prog += ["resetRandom;", f"let y = {self.rx()};", "(y = d1)"]
+        self.nrows += 2
+        return "signal in A 8 0\nmaxrows 400\nprogram\n" + "\n".join(prog) + "\n", self.nrows
+
+
 def generate(focus, n=None):
     n = n or SIZE.get(focus, PER_FOCUS)
     cases = []
     for k in range(n):
         rnd = random.Random(f"{focus}/{k}")
-        if focus == "C12":
+        if focus == "C17":
+            cases.append(Draws(rnd).scenario())
+        elif focus == "C12":
             cases.append(damage_program(rnd, Gen(rnd, rnd.choice(["C08", "C01", "C05", "C14", "C19"])).scenario()))
         elif focus == "C11":
             cases.append(damage_signals(rnd, Gen(rnd, rnd.choice(["C06", "C14", "C04"])).scenario()))
@@ -459,6 +553,13 @@ def record():
     os.makedirs(GRID, exist_ok=True)
     for f in FOCI:
         cases = generate(f)
+        if f == "C17":
+            with gz_write(os.path.join(GRID, f + ".jsonl.gz")) as g:
+                for scen, nrows in cases:
+                    g.write(json.dumps(dict(scenario=scen, expect=dict(c17_nrows=nrows))) + "\n")
+            n, fails = check("C17")
+            print(f, "stored", n, "; on this tree", len(fails), "contradict the statement", [b[2][0][:200] for b in fails[:3]])
+            continue
         res = run_cases(cases, f)
         kept, dropped = [], 0
         for c, a, b in zip(cases, res["release"], res["debug"]):
@@ -472,7 +573,7 @@ def record():
                 print("  not recorded:", f, a.get("outcome"), b.get("outcome"))
                 continue
             kept.append(dict(scenario=c, expect=a))
-        with gzip.open(os.path.join(GRID, f + ".jsonl.gz"), "wt") as g:
+        with gz_write(os.path.join(GRID, f + ".jsonl.gz")) as g:
             for k in kept:
                 g.write(json.dumps(k) + "\n")
         st = {}
@@ -480,6 +581,21 @@ def record():
             key = f"{k['expect'].get('stage')}/{k['expect'].get('outcome')}"
             st[key] = st.get(key, 0) + 1
         print(f, "recorded", len(kept), "dropped", dropped, st)
+
+
+import contextlib
+
+
+@contextlib.contextmanager
+def gz_write(path):
+    """deterministic gzip (no time stamp, no file name): re-recording an unchanged pool leaves the file byte-identical"""
+    import io
+    with open(path, "wb") as raw:
+        z = gzip.GzipFile(filename="", mode="wb", fileobj=raw, mtime=0)
+        t = io.TextIOWrapper(z, encoding="utf-8")
+        yield t
+        t.flush()
+        z.close()
 
 
 def load(focus):
@@ -497,6 +613,22 @@ def check(focus):
     if not cases:
         return 0, []
     res = run_cases([c["scenario"] for c in cases], focus)
+    if focus == "C17":
+        fails = []
+        for i, c in enumerate(cases):
+            bad = []
+            for prof in ("release", "debug"):
+                o = res[prof][i] if i < len(res[prof]) else dict(outcome="missing")
+                rows = o.get("rows") or []
+                if o.get("outcome") != "ok":
+                    bad.append(f"{prof}: outcome {o.get('outcome')}")
+                elif len(rows) != c["expect"]["c17_nrows"] or any("[A=1]" not in r_ for r_ in rows):
+                    wrong = [r_ for r_ in rows if "[A=1]" not in r_][:2]
+                    bad.append(f"{prof}: the draw after the block is not draw number m+1 of the replayed sequence, or a row is missing "
+                               f"({len(rows)} rows, {c['expect']['c17_nrows']} prescribed; rows that are not 1: {wrong})")
+            if bad:
+                fails.append((i, c["scenario"], bad, {p: (res[p][i] if i < len(res[p]) else None) for p in res}))
+        return len(cases), fails
     if focus in ("C09", "C10"):
         # oracle from the statement alone
         fails = []
